@@ -416,7 +416,8 @@ class Engine:
                 rec = m["rec"]
                 sid = self.site_id(fi, rec["node"], rec["sub"], numbering)
                 if m["kind"] == "container":
-                    pb = sorted(o for o in m["bad"] if o.startswith("P:"))
+                    star = {p for p, k in fi.params if k in ("var", "kw")}
+                    pb = sorted(o for o in m["bad"] if o.startswith("P:") and o[2:] not in star)
                     if pb:
                         notes.append("outside C20 (container, not array): %s:%d `%s` mutates a "
                                      "caller-supplied container %s"
